@@ -480,9 +480,6 @@ def eval_unusual(ctx, case):
     if case.get("outmod"):
         # the go.mod governing the *output* directory is malformed or has no module line: crash-freedom only
         return Verdict.held(obs, nontrivial=True, tags=tags + ["crash-freedom-only"])
-    if case.get("gomod") == "block":
-        # `module ( path )` is valid go.mod syntax; only crash-freedom is asserted here (C01 covers generation)
-        return Verdict.held(obs, nontrivial=True, tags=tags + ["crash-freedom-only"])
     if r.exit != 0:
         return Verdict.violated("valid-but-unusual input (%s): mockery exited %s" % (case["what"], r.exit), dict(obs, **r.brief()), tags)
     got = generated_structs(root)
@@ -520,7 +517,7 @@ def body(ctx, replay=None):
                 "(thorough adds random pairs of faults); unusual cases: 8 go.mod spellings x in-package/out-of-package placement, function-local types "
                 "in every position, build-tagged files, test-only and empty directories under recursion, anchors with aliases/merge keys/nested maps, "
                 "very long names, main package, unicode identifiers, dot imports, nested output module. non-trivial = every case; distinct = case hash" % len(INVALID))
-    ctx.assumptions = ["stderr/stdout are inspected only for emptiness and for a Go panic trace", "`module ( path )` block form: crash-freedom only"]
+    ctx.assumptions = ["stderr/stdout are inspected only for emptiness and for a Go panic trace", "malformed go.mod files governing the output directory: crash-freedom only"]
     if replay is not None:
         cases = [replay]
     else:
